@@ -295,7 +295,9 @@ fn gen_big_history(rng: &mut Rng, out: &mut Vec<String>, target_len: usize, heav
         match choice {
             0..=3 => {
                 // a run of appends: to the next carry and one beyond
-                let run = if step == 0 { (m0 as u64).clamp(1, 6) } else { rng.range(1, 3) };
+                // the property's domain is < 2^63 leafs (node indices fit u64): never append beyond 2^63 - 1
+                let room = ((1u64 << 63) - 1).saturating_sub(sp.n);
+                let run = (if step == 0 { (m0 as u64).clamp(1, 6) } else { rng.range(1, 3) }).min(room);
                 for _ in 0..run {
                     let d = rng.digest_u();
                     line.push_str(&format!(" (a;{})", fmt_digest(&d)));
@@ -334,7 +336,8 @@ fn gen_big_history(rng: &mut Rng, out: &mut Vec<String>, target_len: usize, heav
             _ => {
                 let mi: Vec<u64> = mat.iter().copied().filter(|_| rng.coin(1, 2)).take(3).collect();
                 let mut muts: Vec<(u64, Digest, Vec<Digest>)> = mi.iter().map(|&i| (i, rng.digest_u(), sp.path(i))).collect();
-                let apps: Vec<Digest> = (0..rng.below(4)).map(|_| rng.digest_u()).collect();
+                let room = ((1u64 << 63) - 1).saturating_sub(sp.n);
+                let apps: Vec<Digest> = (0..rng.below(4).min(room)).map(|_| rng.digest_u()).collect();
                 // the peaks after the stated mutations and appends, from a copy of the sparse forest
                 let mut after = Sparse { n: sp.n, leafs: sp.leafs.clone(), opaque: sp.opaque.clone(), rnd: sp.rnd, missing: 0 };
                 for (i, d, _) in &muts {
@@ -722,6 +725,9 @@ fn run_bhist(a: &[Arg], st: &mut Stats) -> Option<Out> {
     let mut out = vec![fmt_state(&acc)];
     // peaks, count and every materialised leaf's path against the sparse forest
     fn check_sp(sp: &mut Option<Sparse>, acc: &MmrAccumulator, fails: &mut Vec<String>, what: &str) {
+        if sp.as_ref().map(|s| s.n >= 1 << 63).unwrap_or(false) {
+            *sp = None; // outside the property's domain (< 2^63 leafs: node indices fit u64)
+        }
         if let Some(s) = sp {
             if acc.num_leafs() != s.n {
                 fails.push(format!("{what}: leaf count {} != {}", acc.num_leafs(), s.n));
@@ -759,7 +765,7 @@ fn run_bhist(a: &[Arg], st: &mut Stats) -> Option<Out> {
                                 fails.push(format!("{what}: returned membership proof is not the path recomputed by folding"));
                             }
                         }
-                        if !mp.verify(n_before, d, &acc.peaks(), acc.num_leafs()) {
+                        if n_before < (1 << 63) - 1 && !mp.verify(n_before, d, &acc.peaks(), acc.num_leafs()) {
                             fails.push(format!("{what}: returned membership proof does not verify"));
                         }
                         out.push(format!("{}{}", fmt_state(&acc), fmt_digests(&mp.authentication_path)));
@@ -891,7 +897,7 @@ fn run_bhist(a: &[Arg], st: &mut Stats) -> Option<Out> {
                             fails.push(format!("{what}: verify_batch_update accepted duplicate or out-of-range indices"));
                         }
                         if let (Some(s), false, false) = (&mut sp, dup, oob) {
-                            if muts.iter().all(|m| s.leafs.contains_key(&m.0)) && muts.iter().all(|m| m.2 == s.path(m.0)) {
+                            if s.n + (apps.len() as u64) < (1 << 63) && muts.iter().all(|m| s.leafs.contains_key(&m.0)) && muts.iter().all(|m| m.2 == s.path(m.0)) {
                                 let mut after = Sparse { n: s.n, leafs: s.leafs.clone(), opaque: s.opaque.clone(), rnd: None, missing: 0 };
                                 for m in &muts {
                                     after.leafs.insert(m.0, m.1);
